@@ -173,7 +173,7 @@ def replay_plan(mod, plan: dict) -> tuple[dict, Sim]:
 
 
 def minimise(mod, plan: dict, target_sig: dict, budget_runs=400, budget_s=30.0) -> dict:
-    clause = target_sig["clause"]
+    budget_runs, budget_s = getattr(mod, "SHRINK_BUDGET", (budget_runs, budget_s))
     t0 = time.time()
     runs = [0]
 
